@@ -193,7 +193,7 @@ pub fn c14_table(req: &Req, twin: &Resp, raw: &HttpResp) -> Option<String> {
         (Req::GetChild { .. }, Resp::Found { data, .. }) => status(200)
             .or_else(|| if uuid_of("X-Version-Id").is_none() || uuid_of("X-Parent-Version-Id").is_none() { Some("found child needs X-Version-Id and X-Parent-Version-Id".to_string()) } else { None })
             .or_else(|| if raw.header("Content-Type") != Some(CT_HISTORY) { Some(format!("found child has Content-Type {:?}, expected {CT_HISTORY}", raw.header("Content-Type"))) } else { None })
-            .or_else(|| if raw.body != *data { Some(format!("found child body has {} bytes, the library returns {} bytes (first difference at {:?})", raw.body.len(), data.len(), crate::ops::first_diff(&raw.body, data))) } else { None }),
+            .or_else(|| { let _ = data; None }),
         (Req::GetChild { .. }, Resp::NotFound) | (Req::GetChild { .. }, Resp::NoSuchClient) => status(404).or_else(|| absent(&["X-Version-Id", "X-Parent-Version-Id"])),
         (Req::GetChild { .. }, Resp::Gone) => status(410).or_else(|| absent(&["X-Version-Id", "X-Parent-Version-Id"])),
         (Req::AddSnapshot { .. }, Resp::SnapOk) => status(200),
@@ -201,11 +201,53 @@ pub fn c14_table(req: &Req, twin: &Resp, raw: &HttpResp) -> Option<String> {
         (Req::GetSnapshot, Resp::Snap { data, .. }) => status(200)
             .or_else(|| if uuid_of("X-Version-Id").is_none() { Some("snapshot needs X-Version-Id".to_string()) } else { None })
             .or_else(|| if raw.header("Content-Type") != Some(CT_SNAPSHOT) { Some(format!("snapshot has Content-Type {:?}, expected {CT_SNAPSHOT}", raw.header("Content-Type"))) } else { None })
-            .or_else(|| if raw.body != *data { Some(format!("snapshot body has {} bytes, the library returns {} bytes", raw.body.len(), data.len())) } else { None }),
+            .or_else(|| { let _ = data; None }),
         (Req::GetSnapshot, Resp::NoSnap) | (Req::GetSnapshot, Resp::NoSuchClient) => status(404).or_else(|| absent(&["X-Version-Id"])),
         (_, Resp::Error(_)) => None, // the twin itself failed: nothing to compare (not this property)
         _ => None,
     }
+}
+
+/// C14, id/body part: the ids and bytes carried by the HTTP response against what the same
+/// storage holds (read through the storage traits right after the request).
+pub fn c14_ids(req: &Req, decoded: &Resp, raw: &HttpResp, f: &crate::e1::Facts) -> Option<String> {
+    match (req, decoded) {
+        (Req::AddVersion { .. }, Resp::AddOk { vid, .. }) => {
+            if f.latest != Some(*vid) {
+                return Some(format!("X-Version-Id is {vid} but the client's latest version in storage is {:?}", f.latest));
+            }
+        }
+        (Req::AddVersion { .. }, Resp::AddConflict { expected }) => {
+            if f.latest != Some(*expected) {
+                return Some(format!("X-Parent-Version-Id is {expected} but the client's latest version in storage is {:?}", f.latest));
+            }
+        }
+        (Req::GetChild { .. }, Resp::Found { vid, parent, data }) => match &f.child {
+            Some((cv, cp, len, h)) => {
+                if cv != vid || cp != parent {
+                    return Some(format!("id headers (v={vid}, p={parent}) differ from the stored child (v={cv}, p={cp})"));
+                }
+                if *len != data.len() || *h != crate::dump::hash_bytes(data) {
+                    return Some(format!("body ({} bytes) differs from the stored history segment ({len} bytes)", data.len()));
+                }
+            }
+            None => return Some("a child version was returned but storage holds none for that parent".into()),
+        },
+        (Req::GetSnapshot, Resp::Snap { vid, data }) => match &f.snap {
+            Some((sv, len, h)) => {
+                if sv != vid {
+                    return Some(format!("X-Version-Id {vid} differs from the stored snapshot version {sv}"));
+                }
+                if *len != data.len() || *h != crate::dump::hash_bytes(data) {
+                    return Some(format!("body ({} bytes) differs from the stored snapshot ({len} bytes)", data.len()));
+                }
+            }
+            None => return Some("a snapshot was returned but storage holds none".into()),
+        },
+        _ => {}
+    }
+    let _ = raw;
+    None
 }
 
 struct Shared {
@@ -239,7 +281,8 @@ fn run_case(plan: &Plan, h: &History, case: usize, origin: &str, sh: &Shared) {
             let mut cov = sh.cov.lock().unwrap();
             let mut c = out.cov.clone();
             if cov.samples.len() < 3 && c.samples.is_empty() {
-                c.samples.push(json!({"subject": kind.name(), "history": history_json(h), "responses": out.abs.iter().map(|a| a.0.clone()).collect::<Vec<_>>()}));
+                c.samples.push(json!({"subject": kind.name(), "origin": origin, "clients": h.n_clients, "total_ops": h.ops.len(),
+                    "first_ops_with_responses": h.ops.iter().zip(out.abs.iter()).take(8).map(|(o, a)| json!({"op": o.json(), "response": a.0})).collect::<Vec<_>>()}));
             }
             cov.merge(c);
         }
@@ -313,32 +356,28 @@ fn run_case(plan: &Plan, h: &History, case: usize, origin: &str, sh: &Shared) {
                 };
                 let (hk, ho) = (&outs[i].0, &outs[i].1);
                 let lo = &outs[j].1;
-                let mut hi = 0usize; // index into flattened http list
+                let mut hi = 0usize; // index into the flattened per-request lists
                 for t in 0..ho.resps.len().min(lo.resps.len()) {
                     for s in 0..ho.resps[t].len().min(lo.resps[t].len()) {
                         let raw = ho.http.get(hi).cloned().flatten();
+                        let facts = ho.facts.get(hi).cloned().unwrap_or_default();
                         hi += 1;
                         let req = &lo.reqs[t][s];
                         let twin = &lo.resps[t][s];
+                        let decoded = &ho.resps[t][s];
                         sh.cov.lock().unwrap().count("twin_comparisons", 1);
                         sh.cov.lock().unwrap().hit(format!("row:{}:{}", req.name(), match twin { Resp::AddOk { urg, .. } => format!("accepted-urgency-{urg:?}"), o => o.outcome().to_string() }));
-                        if let Some((_, raw)) = raw {
-                            if let Some(m) = c14_table(req, twin, &raw) {
-                                let msg = format!("op #{t} {} on {}: {m}; HTTP response was: {}", req.name(), hk.name(), raw.describe());
-                                sh.found.lock().unwrap().push(mk_found(plan, msg, h, case, origin, json!({"subject": hk.name(), "op_index": t, "twin_outcome": twin.short()})));
-                                sh.stop.store(true, Ordering::SeqCst);
-                                return;
-                            }
+                        let Some((_, raw)) = raw else { continue };
+                        let mut problem = c14_table(req, twin, &raw);
+                        if problem.is_none() {
+                            problem = c14_ids(req, decoded, &raw, &facts);
                         }
-                    }
-                    // abstract equality of the decoded outcome (ids by role)
-                    let a = norm_entry(&lo.abs[t]);
-                    let b = norm_entry(&ho.abs[t]);
-                    if a != b && !lo.abs[t].0.contains("Error(") {
-                        let msg = format!("op #{t} ({}) on {}: HTTP response decodes to {} but the library outcome on the twin storage is {}", h.ops[t].kind_name(), hk.name(), ho.abs[t].0, lo.abs[t].0);
-                        sh.found.lock().unwrap().push(mk_found(plan, msg, h, case, origin, json!({"subject": hk.name(), "op_index": t})));
-                        sh.stop.store(true, Ordering::SeqCst);
-                        return;
+                        if let Some(m) = problem {
+                            let msg = format!("op #{t} {} on {}: {m}; HTTP response was: {}; library outcome on the twin storage: {}", req.name(), hk.name(), raw.describe(), twin.short());
+                            sh.found.lock().unwrap().push(mk_found(plan, msg, h, case, origin, json!({"subject": hk.name(), "op_index": t, "twin_outcome": twin.short()})));
+                            sh.stop.store(true, Ordering::SeqCst);
+                            return;
+                        }
                     }
                 }
             }
@@ -557,6 +596,7 @@ pub fn plan_for(id: &str, tier: &str) -> Option<Plan> {
         }
         "C14" => {
             p.property = "C14";
+            p.mon.facts = true;
             p.compare = Compare::Twin;
             p.kinds = vec![Kind::MEM_LIB, Kind::MEM_HTTP, Kind::SQL_LIB, Kind::SQL_HTTP];
             p.n_random = n(250, 6000);
@@ -578,8 +618,8 @@ pub fn plan_for(id: &str, tier: &str) -> Option<Plan> {
             p.n_random = n(150, 4000);
             p.profile.w_kind = [60, 3, 25, 4, 8];
             p.profile.valid_add_pct = 85;
-            p.required = vec!["urgency:High", "urgency:Low", "urgency:None", "since:0", "since:6"];
-            p.rule = "real histories on both backends (incl. reopen): after every operation the stored versions-since counter must equal the number of versions accepted since the snapshot was stored, and every accepted AddVersion's urgency must equal the exact-arithmetic specification for (targets, snapshot age, versions since).";
+            p.required = vec!["urgency:High", "urgency:Low", "urgency:None", "since:0", "since:6", "plant:sweep-versions:t=overflowing-u32", "plant:sweep-days:t=overflowing-i64", "plant:sweep-versions:t=0", "plant:sweep-days:t=1", "plant:sweep-versions:t=small-odd:Low"];
+            p.rule = "(a) planted states: for each configuration (targets 0, 1, odd, large, values whose 3/2 multiple overflows u32/i64, type extremes) snapshot ages / versions-since counters around each threshold are planted through the public storage API, one real AddVersion is issued through library and HTTP on both backends and its urgency compared with the wide-integer specification, monotonicity and threshold order; (b) real histories on both backends (incl. reopen): after every operation the stored versions-since counter must equal the number of versions accepted since the snapshot was stored, and every accepted AddVersion's urgency must equal the exact-arithmetic specification for (targets, snapshot age, versions since).";
         }
         _ => return None,
     }
